@@ -216,6 +216,9 @@ def wfErr : WF.Err → Err
   | .assert => .assert | .index => .index | .value => .value
 
 def cw (p : List Frame) (e : Ens) : Except Err Nat :=
+  -- `get_start_point` asserts `left <= right` before it touches `phasepoints[0]`
+  -- (WF.computeWeight reports the IndexError of an empty path first)
+  if ¬ (e.i0 ≤ e.w2) then .error .assert else
   match WF.computeWeight (ops p) e.i0 e.i1 e.w2 e.wf with
   | .ok w => .ok w
   | .error x => .error (wfErr x)
@@ -433,14 +436,16 @@ def retisSwapZeroDet (step : Cfg → Cfg) (opf : Cfg → Int) (vf : Cfg → Opti
       (detScript step opf vf n (startCfg last0 false)) xi
   | _, _ => retisSwapZero e0 e1 old0 old1 ⟨none, []⟩ ⟨none, []⟩ xi
 
-/-- exact integer leap-frog in the double well V(x) = (x² - A)², force F(x) = -4x(x² - A)
-    scaled by integers: v½ = v + F(x); x' = x + 2 v½ ... written in the position-Verlet form
-    `x½ = x + v; v' = v + F(x½); x' = x½ + v'` which is exactly time-reversible on ℤ². -/
-def dwForce (a : Int) (x : Int) : Int := -(x * (x * x - a))
+/-- exact integer position-Verlet in a double well V(x) ∝ (x² - a)²: the force is
+    `-x(x² - a)/k` truncated towards zero and clamped to [-8, 8] (any integer function of `x`
+    keeps the scheme exactly time-reversible on ℤ²):
+    `x½ = x + v; v' = v + F(x½); x' = x½ + v'`. -/
+def dwForce (a k : Int) (x : Int) : Int :=
+  max (-8) (min 8 (-(Int.tdiv (x * (x * x - a)) k)))
 
-def dwStep (a : Int) (c : Cfg) : Cfg :=
+def dwStep (a k : Int) (c : Cfg) : Cfg :=
   let xh := c.x + c.v
-  let v' := c.v + dwForce a xh
+  let v' := c.v + dwForce a k xh
   { x := xh + v', v := v' }
 
 end Infretis.ZeroSwap
